@@ -201,8 +201,9 @@ def extreme_kernel(run, m, rev, arg):
     cmpname = 'sort_cmp_rev' if rev else 'sort_cmp'
     other = 'sort_cmp' if rev else 'sort_cmp_rev'
     # expiry test: `idx < start` (`<=` is an accepted variant: the rescan covers start..=end)
+    EXP = (['(CIDX < OLDIDXOPT)'], ['(CIDX <= OLDIDXOPT)'])
     exp_if = [x for x in _ifs(m.body)
-              if dtree.conj(x['ch'][0], dict(env)) in (['(CIDX < OLDIDXOPT)'], ['(CIDX <= OLDIDXOPT)'])]
+              if dtree.conj(x['ch'][0], dict(env)) in EXP or dtree.conj(x['ch'][0], dict(env), False) in EXP]
     ok = len(exp_if) == 1 and len(exp_if[0]['ch']) == 3
     run.ob('EXT.expiry', fn, 'expiry test `%s < start`' % I, ok, loc(exp_if[0]) if exp_if else fn.loc(),
            '%d expiry test(s) with an else branch' % len(exp_if))
@@ -210,6 +211,8 @@ def extreme_kernel(run, m, rev, arg):
         return
     X = exp_if[0]
     then, els = X['ch'][1], X['ch'][2]
+    if dtree.conj(X['ch'][0], dict(env)) not in EXP:
+        then, els = els, then       # written through its negation (`idx >= start`): branches swapped
     # rescan: for i in start..=end over OLDIDX..END
     loops = [x for x in walk(then) if x.get('k') == 'For']
     okr = False
